@@ -1417,9 +1417,13 @@ func (k *c28) ruleConnect() {
 			c.Check(guardedBy(f, w, pass) && sameConn, "C28.connect-protocol", key+" · writeLoop after node info", w.Pos(),
 				"writeLoop(conn) only after writeNodeInfo(conn) succeeded", "writeLoop not dominated by a successful writeNodeInfo on the same connection")
 
-			isDial := func(in ssa.Instruction) bool { return isCallTo(in, k.dial) }
+			isDial := func(in ssa.Instruction) bool { return k.mayDo(in, func(x ssa.Instruction) bool { return isCallTo(x, k.dial) }, 0) }
 			isBump := func(in ssa.Instruction) bool { return isCallTo(in, k.bumpEpoch) }
-			_, f1 := findPath(pathQuery{start: w, target: isBump, blocker: func(in ssa.Instruction) bool { return isEnable(in, false) }})
+			disables := func(in ssa.Instruction) bool { return k.mustDo(in, func(x ssa.Instruction) bool { return isEnable(x, false) }, 0) }
+			enablesAgain := func(in ssa.Instruction) bool { return k.mayDo(in, func(x ssa.Instruction) bool { return isEnable(x, true) }, 0) }
+			resets := func(in ssa.Instruction) bool { return k.mustDo(in, func(x ssa.Instruction) bool { return isCallTo(x, k.reset) }, 0) }
+			drains := func(in ssa.Instruction) bool { return k.mustDo(in, func(x ssa.Instruction) bool { return isCallTo(x, k.drainQueueLocked) }, 0) }
+			_, f1 := findPath(pathQuery{start: w, target: isBump, blocker: disables})
 			c.Check(!f1, "C28.connect-protocol", key+" · disable before bump", w.Pos(), "Store(false) precedes bumpEpoch on every path", "bumpEpoch reachable after writeLoop without enabledFlag.Store(false)")
 			_, f2 := findPath(pathQuery{start: w, target: isDial, blocker: isBump})
 			c.Check(!f2, "C28.connect-protocol", key+" · bump before redial", w.Pos(), "no redial without bumpEpoch", "redial reachable after a connection ended without bumpEpoch")
@@ -1433,13 +1437,11 @@ func (k *c28) ruleConnect() {
 				}
 				_, f3 := findPath(pathQuery{startEdges: failE, target: isDial})
 				c.Check(!f3, "C28.connect-protocol", key+" · bump failure stops", b.Pos(), "epoch exhaustion never redials", "a failed bumpEpoch (epoch wrap) can reach a redial")
-				_, f4 := findPath(pathQuery{startEdges: okE, target: isDial, blocker: func(in ssa.Instruction) bool { return isCallTo(in, k.reset) }})
+				_, f4 := findPath(pathQuery{startEdges: okE, target: isDial, blocker: resets})
 				c.Check(!f4, "C28.connect-protocol", key+" · reset drops", b.Pos(), "drops.reset before redial", "redial reachable without drops.reset")
-				_, f5 := findPath(pathQuery{startEdges: okE, target: isDial, blocker: func(in ssa.Instruction) bool { return isCallTo(in, k.drainQueueLocked) }})
+				_, f5 := findPath(pathQuery{startEdges: okE, target: isDial, blocker: drains})
 				c.Check(!f5, "C28.connect-protocol", key+" · drain queue", b.Pos(), "queue drained before redial", "redial reachable without draining stale queue entries")
-				_, f6 := findPath(pathQuery{startEdges: okE, target: func(in ssa.Instruction) bool { return isEnable(in, true) }, blocker: func(in ssa.Instruction) bool {
-					return isCallTo(in, k.drainQueueLocked)
-				}})
+				_, f6 := findPath(pathQuery{startEdges: okE, target: enablesAgain, blocker: drains})
 				c.Check(!f6, "C28.connect-protocol", key+" · drain before enable", b.Pos(), "no enable between bump and drain", "emitters can be re-enabled before the stale queue is drained")
 			}
 		}
@@ -1479,14 +1481,68 @@ func (k *c28) ruleSequencerShapes() {
 		g, w := strings.Join(got, " ; "), strings.Join(want, " ; ")
 		c.Check(g == w, "C28.id-shapes", key, f.Pos(), "shape "+g, "shape is ["+g+"], expected ["+w+"]")
 	}
-	if f := c.Fn(telPkg, "makeEventID"); f != nil {
-		expect("makeEventID", f, retShapes(f), "((281474976710655 & p1) | (u64(p0) << 48))")
+	// the ID layout, decided bit by bit (bit-provenance interpretation of the three helpers): an ID carries the
+	// epoch in bits 48..63 and the low 48 bits of the sequence number in bits 0..47
+	bitsOf := func(f *ssa.Function) (bfInt, string) {
+		m := &bfMachine{maxSteps: 4000}
+		args := make([]any, len(f.Params))
+		base := 0
+		for i, p := range f.Params {
+			w, sgn, isInt := bfWidth(p.Type())
+			if !isInt {
+				return bfInt{}, "a parameter is not an integer"
+			}
+			v := bfInt{w: w, s: sgn}
+			for j := 0; j < int(w); j++ {
+				v.b[j] = bfBit{k: 2, i: uint16(base + j)}
+			}
+			args[i] = v
+			base += 64
+		}
+		outs := m.call(f, args, bfHeap{}, 0)
+		if len(outs) != 1 || outs[0].fault != "" || len(outs[0].results) != 1 {
+			why := "no single result"
+			if len(outs) > 0 && outs[0].fault != "" {
+				why = outs[0].fault
+			}
+			return bfInt{}, why
+		}
+		r, isInt := outs[0].results[0].(bfInt)
+		if !isInt {
+			return bfInt{}, "the result is not an integer"
+		}
+		return r, ""
+	}
+	layout := func(key string, f *ssa.Function, want func(j int) bfBit, width int, doc string) {
+		r, why := bitsOf(f)
+		if why == "" {
+			for j := 0; j < width; j++ {
+				if r.b[j] != want(j) {
+					why = fmt.Sprintf("result bit %d is %s, expected %s", j, bfBitString(r.b[j]), bfBitString(want(j)))
+					break
+				}
+			}
+		}
+		c.Check(why == "", "C28.id-shapes", key, f.Pos(), doc, key+" does not have the ID layout: "+why)
+	}
+	if f := c.Fn(telPkg, "makeEventID"); f != nil && len(f.Params) == 2 {
+		layout("makeEventID", f, func(j int) bfBit {
+			if j < 48 {
+				return bfBit{k: 2, i: uint16(64 + j)}
+			}
+			return bfBit{k: 2, i: uint16(j - 48)}
+		}, 64, "ID = epoch in bits 48..63, sequence bits 0..47 below (bit by bit)")
 	}
 	if f := c.Fn(telPkg, "eventIDEpoch"); f != nil {
-		expect("eventIDEpoch", f, retShapes(f), "u16((p0 >> 48))")
+		layout("eventIDEpoch", f, func(j int) bfBit { return bfBit{k: 2, i: uint16(48 + j)} }, 16, "epoch = ID bits 48..63 (bit by bit)")
 	}
 	if f := c.Fn(telPkg, "eventIDSeq"); f != nil {
-		expect("eventIDSeq", f, retShapes(f), "(281474976710655 & p0)")
+		layout("eventIDSeq", f, func(j int) bfBit {
+			if j < 48 {
+				return bfBit{k: 2, i: uint16(j)}
+			}
+			return bfBit{}
+		}, 64, "sequence = ID bits 0..47 (bit by bit)")
 	}
 	if f := c.Fn(telPkg, "sequencer.nextID"); f != nil {
 		expect("nextID return", f, retShapes(f), "internal/telemetry.makeEventID(p0.currentEpoch, p0.seqCounter)")
@@ -1525,47 +1581,69 @@ func (k *c28) ruleSequencerShapes() {
 		c.Check(okOrder, "C28.id-shapes", "nextID read-before-increment", f.Pos(), "returned seq is the pre-increment counter", "returned seq is not the value read before the increment")
 	}
 	if f := c.Fn(telPkg, "sequencer.bumpEpoch"); f != nil {
-		expect("bumpEpoch epoch", f, storeShapes(f, k.fEpoch), "(1 + p0.currentEpoch)")
-		expect("bumpEpoch seq", f, storeShapes(f, k.fSeqCounter), "0")
-		// stores only on the not-exhausted edge, and return true only after both stores
-		pass := condEdges(f, func(v ssa.Value) (bool, bool) {
-			return exprStr(v, exprOpts{}) == "(65535 == p0.currentEpoch)", false
-		})
-		okAll := len(pass) > 0
-		allInstrs(f, func(in ssa.Instruction) {
-			if st, ok := in.(*ssa.Store); ok {
-				if fa, ok := st.Addr.(*ssa.FieldAddr); ok {
-					fv := structField(fa.X.Type(), fa.Field)
-					if (fv == k.fEpoch || fv == k.fSeqCounter) && !guardedBy(f, in, pass) {
-						okAll = false
-					}
-				}
+		// decided by valuation: the function is followed for each of the 65536 values of the 16-bit epoch (its tests and
+		// stored values evaluated as expressions of that value): 0xFFFF refuses and stores nothing; every other
+		// epoch e ends with epoch = e+1, seq = 0 and reports success
+		isField := func(v ssa.Value, fld *types.Var) bool {
+			fa, ok := v.(*ssa.FieldAddr)
+			return ok && structField(fa.X.Type(), fa.Field) == fld
+		}
+		okAll, why := true, ""
+		for e := int64(0); e <= 0xFFFF && okAll; e++ {
+			cur := map[*types.Var]int64{k.fEpoch: e, k.fSeqCounter: 12345}
+			stored := map[*types.Var]bool{}
+			ret, sawRet, undec := int64(-1), false, false
+			env := intEnv{lens: map[ssa.Value]int64{}, params: map[ssa.Value]int64{}, unknown: map[ssa.Value]bool{}}
+			loads := map[ssa.Value]int64{}
+			env.opaque = func(v ssa.Value) (int64, bool) {
+				k, ok := loads[v]
+				return k, ok
 			}
-			if r, ok := in.(*ssa.Return); ok && len(retResults(r)) == 1 {
-				if cst, ok := retResults(r)[0].(*ssa.Const); ok && cst.Value != nil && cst.Value.String() == "true" {
-					if !guardedBy(f, in, pass) {
-						okAll = false
-					}
-					for _, fld := range []*types.Var{k.fEpoch, k.fSeqCounter} {
-						fld := fld
-						_, skip := findPath(pathQuery{fn: f, target: func(x ssa.Instruction) bool { return x == in }, blocker: func(x ssa.Instruction) bool {
-							st, ok := x.(*ssa.Store)
-							if !ok {
-								return false
+			env.watch = func(in ssa.Instruction, en intEnv) {
+				switch x := in.(type) {
+				case *ssa.UnOp:
+					if x.Op == token.MUL {
+						for _, fld := range []*types.Var{k.fEpoch, k.fSeqCounter} {
+							if isField(x.X, fld) {
+								loads[x] = cur[fld]
 							}
-							fa, ok := st.Addr.(*ssa.FieldAddr)
-							return ok && structField(fa.X.Type(), fa.Field) == fld
-						}})
-						if skip {
-							okAll = false
 						}
 					}
-				} else if !ok {
-					okAll = false
+				case *ssa.Store:
+					for _, fld := range []*types.Var{k.fEpoch, k.fSeqCounter} {
+						if isField(x.Addr, fld) {
+							v, ok := evalInt(x.Val, en, 0)
+							if !ok {
+								undec = true
+								return
+							}
+							cur[fld] = wrapToType(v, fld.Type())
+							stored[fld] = true
+						}
+					}
+				case *ssa.Return:
+					if rs := retResults(x); len(rs) == 1 {
+						if v, ok := evalInt(rs[0], en, 0); ok {
+							ret, sawRet = v, true
+						}
+					}
 				}
 			}
-		})
-		c.Check(okAll, "C28.id-shapes", "bumpEpoch wrap guard", f.Pos(), "epoch==0xFFFF refuses; success stores epoch+1 and seq=0", "bumpEpoch can wrap the epoch, or reports success without advancing epoch and resetting seq")
+			n := 2000
+			env.fuel = &n
+			if walkBlocks(f.Blocks[0], nil, env, func(*ssa.BasicBlock) bool { return false }) == nil || undec || !sawRet {
+				okAll, why = false, fmt.Sprintf("the function cannot be followed for epoch %#x", e)
+				break
+			}
+			if e == 0xFFFF {
+				if ret != 0 || stored[k.fEpoch] || stored[k.fSeqCounter] {
+					okAll, why = false, "at epoch 0xFFFF the epoch wraps (or success is reported) instead of refusing with nothing stored"
+				}
+			} else if ret != 1 || cur[k.fEpoch] != e+1 || cur[k.fSeqCounter] != 0 {
+				okAll, why = false, fmt.Sprintf("at epoch %#x: result %d, epoch %#x, seq %d — expected success with epoch+1 and seq 0", e, ret, cur[k.fEpoch], cur[k.fSeqCounter])
+			}
+		}
+		c.Check(okAll, "C28.id-shapes", "bumpEpoch wrap guard", f.Pos(), "epoch==0xFFFF refuses with nothing stored; every other epoch succeeds storing epoch+1 and seq=0 (followed by valuation of the epoch)", "bumpEpoch can wrap the epoch, or reports success without advancing epoch and resetting seq: "+why)
 	}
 	if f := c.Fn(telPkg, "sequencer.validateParentLocked"); f != nil {
 		got := retShapes(f)
@@ -1737,4 +1815,54 @@ func wireRegions(f *ssa.Function, boundary func(ssa.Instruction) bool, writeEven
 func instrOf(v ssa.Value) ssa.Instruction {
 	in, _ := stripConv(v).(ssa.Instruction)
 	return in
+}
+
+// mayDo: the instruction does what pred describes, or calls a package function in which some instruction may.
+func (k *c28) mayDo(in ssa.Instruction, pred func(ssa.Instruction) bool, depth int) bool {
+	if pred(in) {
+		return true
+	}
+	g := k.pkgCallee(in)
+	if g == nil || depth > 3 {
+		return false
+	}
+	found := false
+	allInstrs(g, func(x ssa.Instruction) {
+		if !found && k.mayDo(x, pred, depth+1) {
+			found = true
+		}
+	})
+	return found
+}
+
+// mustDo: the instruction does what pred describes, or calls a package function that does it on every path from
+// its entry to a return.
+func (k *c28) mustDo(in ssa.Instruction, pred func(ssa.Instruction) bool, depth int) bool {
+	if pred(in) {
+		return true
+	}
+	g := k.pkgCallee(in)
+	if g == nil || depth > 3 {
+		return false
+	}
+	_, skips := findPath(pathQuery{fn: g, target: isReturn, blocker: func(x ssa.Instruction) bool { return k.mustDo(x, pred, depth+1) }})
+	return !skips
+}
+
+// pkgCallee: the telemetry-package function statically called by in (not through go or defer).
+func (k *c28) pkgCallee(in ssa.Instruction) *ssa.Function {
+	call, ok := in.(*ssa.Call)
+	if !ok {
+		return nil
+	}
+	g := call.Call.StaticCallee()
+	if g == nil || len(g.Blocks) == 0 {
+		return nil
+	}
+	for _, f := range k.funcs {
+		if f == g {
+			return g
+		}
+	}
+	return nil
 }
